@@ -26,7 +26,7 @@ CASED = list("ßǰŉéÉüÜ")
 
 
 def plan(tier, seed):
-    return common.plan_shards(tier, seed, n_quick=60, n_thorough=600, budget_quick=35, budget_thorough=400)
+    return common.plan_shards(tier, seed, n_quick=60, n_thorough=1000, budget_quick=35, budget_thorough=400)
 
 
 def gates(tier):
